@@ -1460,6 +1460,32 @@ class Ev:
                                                                      strip_refs(e2_["recv"]).get("id") == t_["id"]) == 1):
                             # (a fresh set or map filled by one insert per iteration is `seq.map(..).collect()` as well)
                             push_ids.append(t_["id"])
+            # `for x in xs { for y in ys { v.push(f(x, y)) } }` on a fresh vector is `xs.cartesian_product(ys).map(f).collect()`: every pair, x outer and y inner
+            body_ = x["body"]
+            bst0 = body_["stmts"] + ([{"k": "semi", "e": body_["e"]}] if "e" in body_ else []) if body_.get("k") == "block" else []
+            if len(push_ids) == 1 and not self.loops and not self.guards and not it.enumerated and len(bst0) == 1 and bst0[0]["k"] in ("expr", "semi") and bst0[0]["e"].get("k") == "for":
+                inner = bst0[0]["e"]
+                ib = inner["body"]
+                ist = ib["stmts"] + ([{"k": "semi", "e": ib["e"]}] if "e" in ib else []) if ib.get("k") == "block" else []
+                if len(ist) == 1 and ist[0]["k"] in ("expr", "semi") and ist[0]["e"].get("k") == "mcall" and ist[0]["e"]["m"] == "push" and \
+                        strip_refs(ist[0]["e"]["recv"]).get("id") == push_ids[0] and len(ist[0]["e"]["args"]) == 1:
+                    env_o = fork_env(env)
+                    self.bind(x["pat"], it.fn(Poly.atom("i")), env_o)
+                    it2 = self.eval(inner["iter"], env_o, depth)
+                    if isinstance(it2, Coll):
+                        it2 = it2.seq
+                    if not isinstance(it2, Seq):
+                        el2 = self.elem_of(it2)
+                        it2 = Seq(it2, el2 if callable(el2) else (lambda idx, el2=el2: el2)) if el2 is not None else None
+                    if isinstance(it2, Seq) and not it2.enumerated and not key_mentions(vkey(it2.src), "i"):
+                        def pair_item(idx, it=it, it2=it2, inner=inner, push=ist[0]["e"], env_o=env_o, x=x, depth=depth):
+                            env3 = fork_env(env_o)
+                            self.bind(x["pat"], it.fn(Poly.atom("i")), env3)
+                            self.bind(inner["pat"], it2.fn(Poly.atom("j")), env3)
+                            return self.eval(push["args"][0], env3, depth)
+                        pair_item(None)          # fail closed now if the pushed value cannot be evaluated
+                        env[push_ids[0]] = Coll(Seq(Sym("product", vkey(it.src), vkey(it2.src)), pair_item))
+                        return
             env0 = fork_env(env) if push_ids else None
             # `for _ in a..b { x = f(x) }` applies f a fixed number of times: the `repeat` form of a counted while loop / a range fold. Recognised when the body
             # is a straight line of assignments to outer scalars; each runs on a placeholder for "the value at the start of this round"
@@ -1568,11 +1594,12 @@ class Ev:
                 self.bind_pat_loose(c["pat"], v, env)
             else:
                 g = ("if", vkey(self.eval(c, env, depth)))
-            self.guards.append(g)
+            gs_ = list(g[1]) if isinstance(g, tuple) and len(g) == 2 and g[0] == "all" else [g]          # a conjunction is its conjuncts, one guard each
+            self.guards.extend(gs_)
             try:
                 self.exec_stmt(x["t"], env, depth)
             finally:
-                self.guards.pop()
+                del self.guards[len(self.guards) - len(gs_):]
             if "e" in x:
                 self.guards.append(("not", g))
                 try:
@@ -2139,7 +2166,7 @@ class Ev:
             return Sym("ctor", "Ok", args[0])
         if last == "from_iter" and len(args) == 1:
             if isinstance(args[0], Seq):
-                return Coll(args[0])
+                return collected(args[0])
             return Sym("collect", vkey(args[0]))
         if last == "from_vec" and len(args) == 1 and isinstance(args[0], (Coll, Tup)):
             return args[0]
@@ -2198,6 +2225,8 @@ class Ev:
         for suffix, h in self.hooks.items():
             if not suffix.startswith("@") and d.endswith(suffix):
                 return h(self, [recv] + args, e)
+        if m == "shape" and not args and "ndarray" in d and isinstance(recv, Sym):
+            m = "dim"          # the extents of an ndarray as a slice / as a tuple: one spelling (`a.shape() == [r, c]` is `a.dim() == (r, c)`)
         if isinstance(recv, Sym) and recv.tag[:1] == ("ctor",) and len(recv.tag) == 2 and recv.tag[1] in WEEKDAY_NO and not args and \
                 m in ("num_days_from_monday", "number_from_monday", "num_days_from_sunday", "number_from_sunday") and "chrono" in d:
             n_ = WEEKDAY_NO[recv.tag[1]]          # chrono::Weekday numbering: Mon = 0 .. Sun = 6
@@ -2344,7 +2373,7 @@ class Ev:
                 if (e.get("ty") or "").replace("&", "").startswith("std::result::Result<"):
                     # collecting Results: Ok(all payloads) unless one is Err, which is returned — the same convention as `push(f(x)?)` with `?` on an opaque result
                     return Sym("ctor", "Ok", Coll(recv))
-                return Coll(recv)
+                return collected(recv)
             if m == "skip" and len(args) == 1 and isinstance(args[0], Poly) and args[0].order == 0 and isinstance(vkey(recv.src), tuple) and vkey(recv.src)[:2] == ("sym", "range"):
                 ks_ = vkey(recv.src)          # positions a..b without the first k: a+k..b, element function unchanged (it takes the position itself)
                 return Seq(Sym("range", (poly_from_key(ks_[2]) + args[0]).key(), ks_[3]), recv.fn, recv.enumerated)
@@ -2792,6 +2821,15 @@ def concat_sym(keys):
     return Sym("concat", *out)
 
 
+def collected(seq):
+    """`seq.collect()`: walking a container element by element and collecting is collecting the container (`c.into_iter().collect()` == `from_iter(c)`)."""
+    i_ = Poly.atom("i")
+    if not seq.enumerated and not getattr(seq, "elem_guard", None) and isinstance(seq.src, Sym) and seq.src.tag[:1] in (("param",), ("stored",), ("field",)) and \
+            vkey(seq.fn(i_)) == vkey(Sym("at", vkey(seq.src), i_.key())):
+        return Sym("collect", vkey(seq.src))
+    return Coll(seq)
+
+
 def len_base(k):
     """The container whose length `k` has: sorting in place keeps the number of entries, and a map has as many keys / values as entries."""
     if isinstance(k, tuple) and k[:2] == ("sym", "mut") and len(k) == 5 and k[2] in ("sort", "sort_keys", "sort_unstable", "reverse", "sort_by_key", "sort_by"):
@@ -2842,6 +2880,12 @@ def boolify(v):
     return None
 
 
+def strip_pat(p):
+    while p.get("k") in ("ref", "box", "deref") and "p" in p:
+        p = p["p"]
+    return p
+
+
 def arm_guard(pat, scrut):
     """Guard of a match arm. An arm of `a.cmp(&b)` (integers) on an Ordering variant is the integer comparison itself, so a match on the ordering and an
     if-chain on the comparisons leave the same literals on their paths."""
@@ -2853,6 +2897,13 @@ def arm_guard(pat, scrut):
     if pat.get("k") == "lit" and pat.get("lk") == "int" and isinstance(scrut, Poly) and scrut.order == 0:
         # `match m { 0 => .. }` tests `m == 0`
         return ("if", vkey(cmp_sym("Eq", scrut, Poly.const(-int(pat["v"]) if pat.get("neg") else int(pat["v"])), True)))
+    if pat.get("k") == "tuple" and isinstance(scrut, Tup) and len(pat.get("ps", [])) == len(scrut.items) and len(scrut.items) >= 2:
+        # `(Some(a), Some(b))` against the pair `(x, y)` is `Some(a)` against x and `Some(b)` against y (the nested-match spelling of the same test)
+        parts = [arm_guard(p_, s_) for p_, s_ in zip(pat["ps"], scrut.items) if strip_pat(p_).get("k") not in ("wild", "bind")]
+        if len(parts) == 1:
+            return parts[0]
+        if len(parts) > 1:
+            return ("all", tuple(parts))
     if pat.get("k") == "range" and (not isinstance(scrut, Poly) or scrut.order == 0) and not isinstance(scrut, (Alt, Rec, Tup)) and all(pat.get(b_) is None or (pat[b_].get("k") == "lit" and pat[b_].get("lk") == "int") for b_ in ("lo", "hi")):
         # `match m { 1..=12 => .. }` tests `1 <= m && m <= 12` (integers): the same condition an if-chain on the comparisons leaves
         val = lambda b_: Poly.const(-int(b_["v"]) if b_.get("neg") else int(b_["v"]))
@@ -3010,7 +3061,7 @@ def pat_key(p):
     if k == "path":
         return p.get("def", "?").rsplit("::", 1)[-1]
     if k == "or":
-        return tuple(sorted(pat_key(x) for x in p["ps"]))
+        return tuple(sorted((pat_key(x) for x in p["ps"]), key=repr))          # (alternatives of mixed shape: `Some(Greater) | None`)
     if k == "wild":
         return "_"
     if k == "bind":
